@@ -76,6 +76,20 @@ func main() {
 		}
 		sort.Strings(ks)
 		fmt.Println(strings.Join(ks, "\n"))
+	case "uncovered":
+		p, sp, err := loadAll("/repo")
+		if err != nil {
+			fmt.Fprintln(os.Stderr, err)
+			os.Exit(2)
+		}
+		var ks []string
+		for k, f := range p.Funcs {
+			if len(f.Blocks) > 0 && !strings.Contains(k, "Mock") && !strings.Contains(k, "easyjson") && sp.Funcs[k] == nil {
+				ks = append(ks, k)
+			}
+		}
+		sort.Strings(ks)
+		fmt.Println(strings.Join(ks, "\n"))
 	case "written":
 		p, sp, err := loadAll("/repo")
 		if err != nil {
